@@ -103,7 +103,9 @@ func runC12(c *Ctx) {
 			okRetry := true
 			for e := range differ {
 				tgt := e.From.Succs[e.Succ]
-				r, _ := reach(Pos{tgt, 0}, func(in ssa.Instruction) bool { return in == ssa.Instruction(ext) || in == ssa.Instruction(store) || isReturn(in) }, isInstr(add), nil)
+				r, _ := reach(Pos{tgt, 0}, func(in ssa.Instruction) bool {
+					return in == ssa.Instruction(ext) || in == ssa.Instruction(store) || isReturn(in)
+				}, isInstr(add), nil)
 				if r != nil {
 					okRetry = false
 				}
